@@ -373,12 +373,13 @@ pub fn gen_cases<G: AffineRepr>(seed: u64, tier: &str, stream: &str, curve_idx: 
     let mut out = vec![];
     let thorough = tier == "thorough";
     let count = match (stream, thorough) {
-        ("honest", false) => 10,
+        ("honest", false) => 16,
         ("honest", true) => 60,
         ("cs", false) => 40,
         ("cs", true) => 300,
         ("mutfields", false) => 36,
         ("mutfields", true) => 72,
+        ("violate", false) => 16,
         (_, false) => 8,
         (_, true) => 40,
     };
@@ -397,7 +398,7 @@ pub fn gen_cases<G: AffineRepr>(seed: u64, tier: &str, stream: &str, curve_idx: 
                 let g = gen_program::<F<G>>(&mut rng, &sh);
                 let n = (g.n1 + g.n2).next_power_of_two().max(1);
                 let mut c = R1csCase::plain(id, g.prog, n, n, rng.gen());
-                c.tag = format!("cs n1={} n2={}", g.n1, g.n2);
+                c.tag = format!("{} n1={} n2={}", if k % 4 == 0 { "cs-missing" } else { "cs" }, g.n1, g.n2);
                 out.push(c);
             }
             "honest" => {
@@ -434,7 +435,23 @@ pub fn gen_cases<G: AffineRepr>(seed: u64, tier: &str, stream: &str, curve_idx: 
                 };
                 let mut gate_ov = vec![];
                 let mut tag = String::new();
-                if k % 2 == 0 || g.n1 == 0 {
+                if k % 4 == 3 {
+                    // violated constraint whose value is exactly one of its own constant terms:
+                    // [c1.One, (balanced terms), ...] is violated by c1 but satisfied if c1 (or the balancing constant) is dropped
+                    let c1: F<G> = F::<G>::rand(&mut rng);
+                    let first = k % 8 == 3;
+                    if let Some((pi, bi)) = g.balanced.first().cloned() {
+                        let ins = |t: &mut Lcx<F<G>>| {
+                            if first { t.insert(0, (V::One, Sx::C(c1))) } else { t.push((V::One, Sx::C(c1))) }
+                        };
+                        match (&mut g.prog[pi], bi) {
+                            (COp::Constrain(t), None) => ins(t),
+                            (COp::Randomize(body), Some(b)) => { if let ROp::Constrain(t) = &mut body[b] { ins(t) } }
+                            _ => {}
+                        }
+                        tag = format!("violate-constraint extra-constant first={}", first);
+                    }
+                } else if k % 2 == 0 || g.n1 == 0 {
                     let pos = rng.gen_range(0..64);
                     if violate(&mut g, pos, delta) {
                         tag = format!("violate-constraint pos={}", pos);
